@@ -12,6 +12,8 @@ exact rewrites a maintainer applies without changing behaviour:
   * chained comparison                     a <= i < b  ==  a <= i and i < b
   * nested and/or of the same kind flattened (short-circuit order kept:
     conjuncts are NEVER reordered)
+  * a conditional expression with a constant branch, as a test
+                                           True if A else B  ==  A or B
 
 The pinned tree's own spelling of every condition is frozen in
 pv/refs/baseline_exprs.json (tools/gen_baseline_exprs.py), keyed by function
@@ -162,6 +164,24 @@ def canon(e, boolctx=False):
                 for c in g.generators])
         return ast.Call(func=ast.Name(id=e.func.id, ctx=ast.Load()),
                         args=[gen], keywords=[])
+    if boolctx and isinstance(e, ast.IfExp):
+        # as a test:  True if A else B  ==  A or B ;  B if A else False  ==
+        # A and B ;  False if A else B  ==  not A and B ;  B if A else True
+        # ==  not A or B   (what an inlined early-return helper leaves)
+        def cst(x, v):
+            return isinstance(x, ast.Constant) and x.value is v
+        if cst(e.body, True):
+            return _flat(ast.Or(), [canon(e.test, True),
+                                    canon(e.orelse, True)])
+        if cst(e.orelse, False):
+            return _flat(ast.And(), [canon(e.test, True),
+                                     canon(e.body, True)])
+        if cst(e.body, False):
+            return _flat(ast.And(), [_neg(canon(e.test, True), True),
+                                     canon(e.orelse, True)])
+        if cst(e.orelse, True):
+            return _flat(ast.Or(), [_neg(canon(e.test, True), True),
+                                    canon(e.body, True)])
     if isinstance(e, ast.IfExp):
         return ast.IfExp(test=canon(e.test, True),
                          body=canon(e.body, boolctx),
